@@ -8,6 +8,7 @@ def nontrivial(b):
 
 
 ALL = (0, 1, 2, 3, 4, 5, 6, 7)   # tokens for lengths 0,1,page-1,page,page+1,2p-1,2p,2p+1
+# further tokens: 8 = 100000, 9 = 7, 10 = 2 MiB + 1, 11 = 3 MiB + 4097 (beyond a huge-page boundary)
 
 
 def plans(tier):
@@ -16,9 +17,12 @@ def plans(tier):
             {"name": "bfs-os", "variant": "os", "mode": "thread",
              "gen": dict(agents=(0,), maxch=0, maxreg=2, maxslots=2, maxops=3, regionlens=(0, 2)), "filter": nontrivial,
              "limit": 3000},
+            # one region beyond a huge-page boundary: created, cloned, sent, received, read - every order of 4 operations
+            {"name": "bfs-os-2MiB", "variant": "os", "mode": "thread",
+             "gen": dict(agents=(0,), maxch=0, maxreg=1, maxslots=1, maxops=4, regionlens=(10,)), "filter": nontrivial},
             {"name": "sim-os-process", "variant": "os", "mode": "process",
              "gen": dict(agents=(0, 1), maxch=1, maxreg=4, maxslots=3, maxops=16, minops=9, maxqueue=3,
-                         regionlens=ALL, simulate=25, depth=100, tlcseed=chancheck.seed())},
+                         regionlens=ALL + (10,), simulate=25, depth=100, tlcseed=chancheck.seed())},
             {"name": "sim-memfd-process", "variant": "memfd", "mode": "process",
              "gen": dict(agents=(0, 1), maxch=1, maxreg=4, maxslots=3, maxops=16, minops=9, maxqueue=3,
                          regionlens=ALL, simulate=20, depth=100, tlcseed=chancheck.seed() + 1)},
@@ -30,7 +34,12 @@ def plans(tier):
     for variant, mode in (("os", "process"), ("os", "thread"), ("memfd", "process"), ("inprocess", "thread")):
         out.append({"name": "sim-%s-%s" % (variant, mode), "variant": variant, "mode": mode,
                     "gen": dict(agents=(0, 1), maxch=2, maxreg=8, maxslots=4, maxops=40, minops=20, maxqueue=6,
-                                regionlens=ALL + (8, 9), simulate=100, depth=200, tlcseed=chancheck.seed() + len(out))})
+                                regionlens=ALL + (8, 9, 10, 11), simulate=100, depth=200, tlcseed=chancheck.seed() + len(out))})
+    out.append({"name": "bfs-os-2MiB", "variant": "os", "mode": "thread",
+                "gen": dict(agents=(0,), maxch=0, maxreg=1, maxslots=1, maxops=5, regionlens=(10, 11)), "filter": nontrivial,
+                "limit": 20000})
+    out.append({"name": "bfs-memfd-2MiB", "variant": "memfd", "mode": "thread",
+                "gen": dict(agents=(0,), maxch=0, maxreg=1, maxslots=1, maxops=4, regionlens=(10, 11)), "filter": nontrivial})
     out.append({"name": "bfs-os-d4", "variant": "os", "mode": "thread",
                 "gen": dict(agents=(0,), maxch=0, maxreg=2, maxslots=1, maxops=4, regionlens=(0, 2, 4)),
                 "filter": nontrivial, "limit": 30000})
